@@ -64,26 +64,28 @@ end Tree
 namespace Tree
 
 /-- status gate of `link`: both sides below `Draining` -/
-def gate (s : State) (c p : Nat) : Prop :=
-  c < s.n ∧ p < s.n ∧ (s.status c).toNat < Status.draining.toNat ∧ (s.status p).toNat < Status.draining.toNat
+def gateB (lim : Nat) (s : State) (c p : Nat) : Prop :=
+  c < s.n ∧ p < s.n ∧ (s.status c).toNat < lim ∧ (s.status p).toNat < Status.draining.toNat
+
+def gate (s : State) (c p : Nat) : Prop := gateB Status.draining.toNat s c p
 
 /-- the four outcomes of `link` -/
-theorem link_cases (s : State) (c p : Nat) :
-    (link s c p = (s, false) ∧ (¬ gate s c p ∨ s.kids p = none)) ∨
-    (∃ ks, gate s c p ∧ s.kids p = some ks ∧
-      ((s.sup c = some p ∧ link s c p = ({ s with kids := upd s.kids p (some (ins c ks)) }, true)) ∨
+theorem linkB_cases (lim : Nat) (s : State) (c p : Nat) :
+    (linkBelow lim s c p = (s, false) ∧ (¬ gateB lim s c p ∨ s.kids p = none)) ∨
+    (∃ ks, gateB lim s c p ∧ s.kids p = some ks ∧
+      ((s.sup c = some p ∧ linkBelow lim s c p = ({ s with kids := upd s.kids p (some (ins c ks)) }, true)) ∨
        (s.sup c = none ∧
-          link s c p = ({ s with kids := upd s.kids p (some (ins c ks)), sup := upd s.sup c (some p) }, true)) ∨
+          linkBelow lim s c p = ({ s with kids := upd s.kids p (some (ins c ks)), sup := upd s.sup c (some p) }, true)) ∨
        (∃ q, s.sup c = some q ∧ q ≠ p ∧
-          link s c p = ({ s with kids := (match upd s.kids p (some (ins c ks)) q with
-                                          | none => upd s.kids p (some (ins c ks))
-                                          | some qs => upd (upd s.kids p (some (ins c ks))) q (some (qs.erase c))),
-                                 sup := upd s.sup c (some p) }, true)))) := by
-  unfold link gate
+          linkBelow lim s c p = ({ s with kids := (match upd s.kids p (some (ins c ks)) q with
+                                                   | none => upd s.kids p (some (ins c ks))
+                                                   | some qs => upd (upd s.kids p (some (ins c ks))) q (some (qs.erase c))),
+                                          sup := upd s.sup c (some p) }, true)))) := by
+  unfold linkBelow gateB
   by_cases h1 : s.n ≤ c ∨ s.n ≤ p
   · left; simp only [h1, ↓reduceIte, true_and]; left; omega
   · simp only [h1, ↓reduceIte]
-    by_cases h2 : Status.draining.toNat ≤ (s.status c).toNat ∨ Status.draining.toNat ≤ (s.status p).toNat
+    by_cases h2 : lim ≤ (s.status c).toNat ∨ Status.draining.toNat ≤ (s.status p).toNat
     · left; simp only [h2, ↓reduceIte, true_and]; left; omega
     · simp only [h2, ↓reduceIte]
       cases hk : s.kids p with
@@ -102,8 +104,22 @@ theorem link_cases (s : State) (c p : Nat) :
             refine ⟨q, rfl, ?_, rfl⟩
             intro e; subst e; exact h3 hq
 
-theorem Inv.link {s : State} (h : Inv s) (c p : Nat) : Inv (link s c p).1 := by
-  rcases link_cases s c p with ⟨e, _⟩ | ⟨ks, hg, hk, hcase⟩
+theorem link_cases (s : State) (c p : Nat) :
+    (link s c p = (s, false) ∧ (¬ gate s c p ∨ s.kids p = none)) ∨
+    (∃ ks, gate s c p ∧ s.kids p = some ks ∧
+      ((s.sup c = some p ∧ link s c p = ({ s with kids := upd s.kids p (some (ins c ks)) }, true)) ∨
+       (s.sup c = none ∧
+          link s c p = ({ s with kids := upd s.kids p (some (ins c ks)), sup := upd s.sup c (some p) }, true)) ∨
+       (∃ q, s.sup c = some q ∧ q ≠ p ∧
+          link s c p = ({ s with kids := (match upd s.kids p (some (ins c ks)) q with
+                                          | none => upd s.kids p (some (ins c ks))
+                                          | some qs => upd (upd s.kids p (some (ins c ks))) q (some (qs.erase c))),
+                                 sup := upd s.sup c (some p) }, true)))) :=
+  linkB_cases Status.draining.toNat s c p
+
+theorem Inv.linkBelow {s : State} (h : Inv s) (lim : Nat) (hlim : lim ≤ Status.stopped.toNat) (c p : Nat) :
+    Inv (linkBelow lim s c p).1 := by
+  rcases linkB_cases lim s c p with ⟨e, _⟩ | ⟨ks, hg, hk, hcase⟩
   · rw [e]; exact h
   · obtain ⟨hc, hp, hsc, hsp⟩ := hg
     have hnd := h.nodup p ks hk
@@ -167,7 +183,7 @@ theorem Inv.link {s : State} (h : Inv s) (c p : Nat) : Inv (link s c p).1 := by
           · exact h.nodup p' ks' hk'
         stopped := by
           intro a ha
-          have hac : a ≠ c := by rintro rfl; simp only at ha; rw [ha] at hsc; simp [Status.toNat] at hsc
+          have hac : a ≠ c := by rintro rfl; simp only at ha; rw [ha] at hsc; simp only [Status.toNat] at hsc hlim; omega
           have hap : a ≠ p := by rintro rfl; simp only at ha; rw [ha] at hsp; simp [Status.toNat] at hsp
           simp only [upd_ne _ _ hac, upd_ne _ _ hap]
           exact h.stopped a ha }
@@ -250,7 +266,7 @@ theorem Inv.link {s : State} (h : Inv s) (c p : Nat) : Inv (link s c p).1 := by
             · exact h.nodup p' ks' hk'
         stopped := by
           intro a ha
-          have hac : a ≠ c := by rintro rfl; simp only at ha; rw [ha] at hsc; simp [Status.toNat] at hsc
+          have hac : a ≠ c := by rintro rfl; simp only at ha; rw [ha] at hsc; simp only [Status.toNat] at hsc hlim; omega
           have hap : a ≠ p := by rintro rfl; simp only at ha; rw [ha] at hsp; simp [Status.toNat] at hsp
           have haq : a ≠ q := by
             rintro rfl
@@ -323,6 +339,12 @@ theorem Inv.unlink {s : State} (h : Inv s) (c p : Nat) : Inv (unlink s c p) := b
   · simp only [hs, ↓reduceIte]; exact h
 
 /-- the state part of `take_children` never depends on the list -/
+theorem Inv.link {s : State} (h : Inv s) (c p : Nat) : Inv (link s c p).1 :=
+  h.linkBelow Status.draining.toNat (by decide) c p
+
+theorem Inv.linkStart {s : State} (h : Inv s) (c p : Nat) : Inv (linkStart s c p).1 :=
+  h.linkBelow Status.stopping.toNat (by decide) c p
+
 theorem takeChildren_none {s : State} {p : Nat} (hk : s.kids p = none) : takeChildren s p = (s, []) := by
   simp [takeChildren, hk]
 
